@@ -15,7 +15,7 @@
        extracted code, two carriers).  After every event each grid is tabulated (a closure that looks up an
        array) -- the model's grids are functions and would otherwise be re-evaluated through the whole history.
    META <fix1> <fix2> ev ev ...      (one peer / one reader)
-       ev:  d,it,pay | v,c | w,S | wa,S | wb | u,S,newname | s | o | r | q
+       ev:  d,it,pay | v,c | sv,0/1 | w,S | wb | wa,S | u,S,newname | s | o | r | q
             q prints  M ok=<trace ok so far> name,sync,has,pos,S cont=it:pay;..  D=it:pay;..   or  M ok=.. none D=.. *)
 open Model
 open X_fops
@@ -109,6 +109,7 @@ let meta (w : string array) =
     | [ "w"; s ] -> step (PWState (z_of_int (int_of_string s)))
     | [ "wa"; s ] -> step (PWStateA (z_of_int (int_of_string s)))
     | [ "wb" ] -> step PWStateB
+    | [ "sv"; b ] -> step (PSVis (b = "1"))
     | [ "u"; s; nn ] -> step (PSetup (z_of_int (int_of_string s), nn = "1"))
     | [ "s" ] -> step RShare
     | [ "o" ] -> step RWState
